@@ -327,7 +327,15 @@ class Interp:
                 if name == 'sort':          # sort#3, the collation argument is the empty sequence
                     f = one_fn(args[2])
                     items = list(args[0])
-                    keys = [tuple(_ints(interp.call(f, [(x,)], env))) for x in items]
+                    try:
+                        keys = [tuple(_ints(interp.call(f, [(x,)], env))) for x in items]
+                    except ModelError:
+                        if len(items) >= 2:
+                            raise
+                        # no comparison is needed for fewer than two items, so an implementation may leave the key
+                        # function uncalled (XPath 3.1, 2.3.4 errors and optimization): either outcome is right
+                        interp.flags.add('unneeded-key-error')
+                        return tuple(items)
                     order = sorted(range(len(items)), key=lambda i: keys[i])
                     return tuple(items[i] for i in order)
                 raise ModelError('XPST0017', name)
@@ -400,13 +408,29 @@ class Interp:
         if t == 'for-each-pair':
             f = one_fn(self.ev(a[3], env))
             out = ()
-            for x, y in zip(self.ev(a[1], env), self.ev(a[2], env)):
+            first = self.ev(a[1], env)
+            try:
+                second = self.ev(a[2], env)
+            except ModelError:
+                if first:
+                    raise
+                # there is no pair whatever the second sequence is: an implementation may leave it unevaluated
+                # (XPath 3.1, 2.3.4 errors and optimization), either outcome is right
+                self.flags.add('unneeded-argument-error')
+                return ()
+            for x, y in zip(first, second):
                 out += self.call(f, [(x,), (y,)], env)
             return out
         if t == 'sort':
             f = one_fn(self.ev(a[2], env))
             items = list(self.ev(a[1], env))
-            keys = [tuple(_ints(self.call(f, [(x,)], env))) for x in items]
+            try:
+                keys = [tuple(_ints(self.call(f, [(x,)], env))) for x in items]
+            except ModelError:
+                if len(items) >= 2:
+                    raise
+                self.flags.add('unneeded-key-error')      # see the sort#3 reference above
+                return tuple(items)
             order = sorted(range(len(items)), key=lambda i: keys[i])      # stable
             return tuple(items[i] for i in order)
         if t == 'apply':
